@@ -29,8 +29,8 @@ PROPS = {
             "rule": "seeded pin/lookup/terminate/wait histories on the real DialogBasedBackend under a virtual clock; " + SIDE_NOTE},
     "C20": {"lean": ["C20"], "expected": ["K20", "Globals"], "streams": [{"name": "send", "gen": "send"}],
             "rule": "exhaustive fault patterns: cached connection script x reconnectable path x listener up/down per message, sequences of 1-3 messages, for TCPClientTransport, FailOverClientTransport and TCPBackend; " + SIDE_NOTE},
-    "C01": {"lean": ["C01"], "expected": ["Tables", "Globals"], "also": ["C11"],
-            "streams": [{"name": "pipe", "gen": "pipe"}, {"name": "frame", "gen": "frame", "args": {"focus": "frame"}}],
+    "C01": {"lean": ["C01"], "expected": ["Tables", "Globals"], "also": ["C11", "C20"],
+            "streams": [{"name": "pipe", "gen": "pipe"}, {"name": "frame", "gen": "frame", "args": {"focus": "frame"}}, {"name": "send", "gen": "send"}],
             "rule": PIPE_RULE},
     "C02": {"lean": ["C02"], "expected": ["Tables", "K02", "Globals"], "streams": [{"name": "pipe", "gen": "pipe", "args": {"focus": "responses"}}, {"name": "pipe2", "gen": "pipe", "args": {"focus": "dialogs"}}, {"name": "cfg", "gen": "cfg", "args": {"focus": "hosts"}}, {"name": "wire", "gen": "wire", "args": {"focus": "c07"}}],
             "also": ["C07"], "rule": PIPE_RULE},
